@@ -47,9 +47,10 @@ void mt_lib_start(mt_case * c, mt_engine_cfg * e, size_t def_stack) {
   g_cfg.step_budget = c->tier ? 20000000 : 5000000;
   g_cfg.noise_level = 40;
   mv_set_quiescent_fn(mt_all_queues_empty);
-  mv_enable(&g_cfg);
   mt_desc("engine: W=%d mode=%s tail_preempt=%d/256 sched_bytes=%zu seed=%u\n", e->W,
           e->mode == MV_NOISE ? "noise" : "controlled", e->tail_preempt, c->sched_len, c->seed);
+  mt_flush_early();
+  mv_enable(&g_cfg);
 }
 
 void mt_lib_finish(void) {
